@@ -302,12 +302,23 @@ def arg_names(calls):
     r = set()
     for c in calls:
         for a in c.args:
-            if isinstance(a, ast.Name):
-                r.add(a.id)
-            else:
-                nm = au.is_abs_of(a)
-                if nm:
-                    r.add(nm)
+            nm = a.id if isinstance(a, ast.Name) else au.is_abs_of(a)
+            if not nm:
+                continue
+            r.add(nm)
+            # `for c in (v, w): self.decref(c)`: one call per element of
+            # a tuple / list literal (a set literal de-duplicates and is
+            # not expanded)
+            p = getattr(c, '_parent', None)
+            while p is not None and not (isinstance(
+                    p, ast.For) and au.is_name(p.target, nm)):
+                p = getattr(p, '_parent', None)
+            if p is not None and isinstance(p.iter, (ast.Tuple, ast.List)):
+                for e in p.iter.elts:
+                    en = e.id if isinstance(e, ast.Name) else \
+                        au.is_abs_of(e)
+                    if en:
+                        r.add(en)
     return r
 
 
